@@ -242,6 +242,7 @@ class _NameTagger:
         self.used_named: set[str] = set()
         self.prefixes: set[str] = set()
         self.named: set[str] = set()
+        self.named_allocated: set[str] = set()     # Named on wrapped data / stored temporaries (not outputs)
 
     def __call__(self, node, ordinal, op):
         from pytato.tags import ImplStored, Named, PrefixNamed
@@ -253,6 +254,7 @@ class _NameTagger:
                 if r.random() < 0.25 and nm not in self.used_named:
                     self.used_named.add(nm)
                     self.named.add(nm)
+                    self.named_allocated.add(nm)
                     return node.tagged(Named(nm))
                 self.prefixes.add(nm)
                 return node.tagged(PrefixNamed(nm))
@@ -329,7 +331,30 @@ def batch_adversarial_tags(ctx):
                            allowed_prefixes=tuple({re.sub(r"_[0-9]+$", "", x) for x in tg.prefixes | tg.named}))
         nmz = (r.kir or {}).get("names", {})
         space = set(nmz.get("args", []) + nmz.get("temps", []))
-        # a Named tag that was accepted must have produced exactly that name (if the node survived as an object)
+        # a Named tag that was accepted must have produced exactly that name: on every array of the preprocessed
+        # program that is allocated (stored temporaries, wrapped data)
+        if not r.error or str(r.stage).startswith("c-"):
+            from pytato.array import DataWrapper, InputArgumentBase
+            from pytato.tags import ImplStored, Named
+            from ..reflect import walk
+            outs_ids = {id(v) for v in p2.outputs.values()}
+            must = set()
+            for node in walk(p2.expr()):
+                if not hasattr(node, "tags_of_type") or not node.tags_of_type(Named):
+                    continue
+                if int(np.prod([int(d) for d in node.shape])) == 0:
+                    continue
+                if isinstance(node, DataWrapper) or (not isinstance(node, InputArgumentBase) and id(node) not in outs_ids
+                                                     and node.tags_of_type(ImplStored)):
+                    must |= {t.name for t in node.tags_of_type(Named)}
+            missing = sorted(n for n in must if n not in space)
+            if missing and nmz:
+                dis += 1
+                ctx.violation("names:named-tag-not-honoured",
+                              f"program {p2.index}: arrays tagged Named {missing} were accepted, but the kernel has no argument "
+                              f"or temporary of exactly that name (it has {sorted(space)[:12]}…)",
+                              {"program_index": p2.index, "seed": ctx.seed, "named": missing, "names": nmz,
+                               "inputs": in_names, "outputs": out_names, "prefixes": sorted(tg.prefixes)})
         if not r.error:
             dis += compare_outputs(ctx, "names", p2, runs, r, extra={"inputs_named": in_names, "outputs_named": out_names,
                                                                     "named": sorted(tg.named),
@@ -412,6 +437,20 @@ def batch_scenarios(ctx):
             {"t_dim0": (x + 1).tagged((Named("t"), ImplStored())) * 2}),
         "reduction-prefix-and-input-like-iname": pt.make_dict_of_named_arrays(
             {"o": pt.sum(pt.make_placeholder("rowsum_dim0", (4, 3), np.float64), axis=1).tagged(PrefixNamed("rowsum")) + x}),
+        # Named must yield EXACTLY the name, also next to names that differ only by a numeric suffix
+        # (UniqueNameGenerator keeps per-prefix counters: a request for tmp_0 touches the counter of tmp)
+        "prefix-suffixed-then-named": pt.make_dict_of_named_arrays(
+            {"o": (lambda p: p + (2 * p).tagged((Named("tmp"), ImplStored())))(
+                (x + 1).tagged((PrefixNamed("tmp_0"), ImplStored())))}),
+        "named-then-prefix-suffixed": pt.make_dict_of_named_arrays(
+            {"o": (lambda p: p + (2 * p).tagged((PrefixNamed("tmp_0"), ImplStored())))(
+                (x + 1).tagged((Named("tmp"), ImplStored())))}),
+        "dw-named-next-to-suffixed-prefix": pt.make_dict_of_named_arrays(
+            {"o": pt.make_data_wrapper(data, tags=frozenset({Named("coef")}))
+             * (x + 1).tagged((PrefixNamed("coef_0"), ImplStored())) + (y * 2).tagged((PrefixNamed("coef_1"), ImplStored()))}),
+        "named-suffixed-and-named-plain": pt.make_dict_of_named_arrays(
+            {"o": (lambda p: p + (2 * p).tagged((Named("tmp"), ImplStored())))(
+                (x + 1).tagged((Named("tmp_0"), ImplStored())))}),
         "two-unnamed-dws": pt.make_dict_of_named_arrays(
             {"o": pt.make_data_wrapper(data) + pt.make_data_wrapper(data * 2) + x}),
         "same-array-two-keys": pt.make_dict_of_named_arrays({"o": x + y, "p": x + y}),
@@ -437,7 +476,9 @@ def batch_scenarios(ctx):
         cases += 1
         if r.error and not str(r.stage).startswith("c-"):
             if nm in ("dw-named-equals-input", "prefix-then-named-same-name", "named-then-prefix-same-name",
-                      "named-temp-equals-output-key", "dw-prefix-equals-temp-named") and r.error_class == "ValueError":
+                      "named-temp-equals-output-key", "dw-prefix-equals-temp-named", "prefix-suffixed-then-named",
+                      "named-then-prefix-suffixed", "dw-named-next-to-suffixed-prefix",
+                      "named-suffixed-and-named-plain") and r.error_class == "ValueError":
                 continue        # "a Named tag yields exactly that name or an error"
             if nm.startswith("reserved-input-name") and r.stage in ("generate", "prep"):
                 continue        # rejected: allowed
@@ -456,9 +497,15 @@ def batch_scenarios(ctx):
             ctx.violation(f"names:duplicate-identifier:{nm}",
                           f"scenario {nm}: kernel has one name for two objects: {dups}", {"scenario": nm, "names": nmz})
             continue
-        if nm == "named-temp" and "foo" not in nmz.get("temps", []):
+        required = {"named-temp": ["foo"], "prefix-suffixed-then-named": ["tmp"], "named-then-prefix-suffixed": ["tmp"],
+                    "dw-named-next-to-suffixed-prefix": ["coef"], "named-suffixed-and-named-plain": ["tmp", "tmp_0"],
+                    "named-then-prefix-same-name": ["tmp"], "prefix-then-named-same-name": ["tmp"]}.get(nm, [])
+        lacking = [q for q in required if q not in nmz.get("temps", []) + nmz.get("args", [])]
+        if lacking and nmz:
             dis += 1
-            ctx.violation("names:named-tag-not-honoured", f"Named('foo') temporaries: {nmz.get('temps')}", {"scenario": nm})
+            ctx.violation("names:named-tag-not-honoured",
+                          f"scenario {nm}: accepted, but no argument/temporary is called exactly {lacking}: "
+                          f"temporaries {nmz.get('temps')}, arguments {nmz.get('args')}", {"scenario": nm, "names": nmz})
         if r.error:
             continue    # executor limitation; names were checked above
         ref = evaluate(expr, run)
